@@ -130,7 +130,7 @@ def check_jac_analytic(F, run):
 def run(F, run, tier):
     check_linear_fit(F, run, tier)
     check_lm_guards(F, run)
-    fdjac.analyse(F, run, "C17", "R17.3", "optimize")
+    fd_symbolic_ok = fdjac.analyse(F, run, "C17", "R17.3", "optimize", soft=True)
     check_jac_analytic(F, run)
     from rules import lm
     for path in ("optimize::curve_fit", "optimize::curve_fit_jac"):
@@ -138,7 +138,7 @@ def run(F, run, tier):
             lm.check(F, run, path, None)
         except Missing as e:
             run.broken("R17.4", path, "anchor", "src/optimize/mod.rs", str(e))
-    lm.check_coverage(F, run, "R17.3", "optimize::jac_finite_differences", "lm-fd")
+    lm.check_coverage(F, run, "R17.3", "optimize::jac_finite_differences", "lm-fd", moments=(fd_symbolic_ok is False))
     lm.check_coverage(F, run, "R17.3", "optimize::jac_analytic", "lm-analytic")
     # observation: the start-up helpers advance a by-value copy of the parameters while they update evaluation / jac through references
     for path in ("optimize::initial_residuals", "optimize::initial_residuals_exact"):
